@@ -844,14 +844,39 @@ pub fn mutate(w: &[usize], alphabet: usize, rng: &mut Rng) -> Vec<usize> {
 /// Render a terminal-id string as text. Ids >= terms.len() are foreign lexemes.
 pub const FOREIGN: [&str; 3] = ["#", "@@", "~"];
 
+/// A noise terminal '~' that the INITIAL state lists in %skip (see `add_skip_noise`).
+pub const NOISE: &str = "~";
+
+/// Adds `Noise: '~';` and `%skip Noise` for the INITIAL state: a token that the scanner delivers
+/// and every parser has to ignore (state-specific skip list).
+pub fn add_skip_noise(g: &mut Grammar) {
+    if g.terms.iter().any(|t| t.text == NOISE) || g.rules.iter().any(|r| r.name == "Noise") {
+        return;
+    }
+    g.terms.push(TermDef::raw(NOISE));
+    let ti = g.terms.len() - 1;
+    g.rules.push(Rule { name: "Noise".into(), alts: vec![vec![Factor::T(ti, AstCtl::default())]] });
+    g.states[0].skip.push("Noise".into());
+}
+
 pub fn render_tokens(g: &Grammar, w: &[usize], rng: &mut Rng, varied_ws: bool) -> String {
     let mut s = String::new();
+    let noisy = varied_ws && g.states[0].skip.iter().any(|n| n == "Noise");
+    if noisy && rng.chance(1, 3) {
+        s.push_str("~ ");
+    }
     for (i, t) in w.iter().enumerate() {
         if i > 0 {
             if varied_ws {
                 s.push_str(*rng.pick(&[" ", "  ", "\n", "\t", " \n ", "\r\n"]));
             } else {
                 s.push(' ');
+            }
+            if noisy && rng.chance(1, 3) {
+                s.push_str("~ ");
+                if rng.chance(1, 4) {
+                    s.push_str("~~ ");
+                }
             }
         }
         if *t < g.terms.len() {
@@ -860,6 +885,9 @@ pub fn render_tokens(g: &Grammar, w: &[usize], rng: &mut Rng, varied_ws: bool) -
         } else {
             s.push_str(FOREIGN[(*t - g.terms.len()) % FOREIGN.len()]);
         }
+    }
+    if noisy && rng.chance(1, 3) {
+        s.push_str(" ~");
     }
     s
 }
